@@ -315,7 +315,7 @@ def check_C14(tier, seed):
 
 
 def check_C11(tier, seed):
-    fsr = ["opt", "bl", "all"]
+    fsr = ["opt", "bl", "all"] if tier == "quick" else ["bl", "all"]  # (the thorough tier runs every grammar under opt anyway)
     rot11 = [(g, fsr[(k + seed) % len(fsr)]) for k, g in enumerate(cores.fault_catalogue())]
     return run_ref_property("C11", tier, seed, cores.fault_catalogue(), ["C11"], 3, 4, file_name="f%20x.txt", flagsets_q=("std",), tq=120, tt=1800,
                             bounds_extra={"fault_plan": "symbolic: per block slot, first two invocations in {none, errA, errB, panic}", "Recover": "symbolic"},
